@@ -325,7 +325,7 @@ def sum_complement_lemmas(ex):
     return out
 
 
-def scale_lemma(ex, arr1, arr2, c):
+def scale_lemma(ex, arr1, arr2, c, extra=()):
     """linearity of sums: if arr1[j] = c * arr2[j] element-wise (checked, c independent of j) then sum(arr1) = c * sum(arr2).
     arr1, arr2: 1-D real arrays over the same range.  Returns a z3 Bool or None."""
     from . import opaque
@@ -334,8 +334,10 @@ def scale_lemma(ex, arr1, arr2, c):
     j = ex.newvar('js', 'int')
     lhs, rhs = arr1.elem((j,)), s_mul(c, arr2.elem((j,)))
     prem = s_eq(lhs, rhs)
-    if prem is not True:
-        # numeric pre-check: a premise that fails on sampled interpretations is not worth a solver call (no lemma is issued: sound)
+    if prem is not True and ex.__dict__.get('fast_ident'):
+        # numeric pre-check (only where the contract opted in: it tries many speculative premises): a premise that fails on sampled
+        # interpretations is not worth a solver call.  No lemma is issued, which is sound, but the sampling ignores most hypotheses, so a
+        # contract must switch this off around a lemma whose premise holds only because of the path condition.
         try:
             from . import numeval
             opq = lambda t: {n_ for n_ in opaque._array_symbols(t) if n_.startswith(('fft_', 'ifft_', 'L!', 'L_', 'ivp_'))}
@@ -347,7 +349,12 @@ def scale_lemma(ex, arr1, arr2, c):
             import os
             if os.environ.get('PYVC_DEBUG'):
                 print('scale_lemma precheck failed:', repr(e_))
-    if not (prem is True or opaque.entails_ax(ex, z3.Implies(z3.And(j >= 0, j < tonum(arr1.shape[0])), prem))):
+    # `extra`: instances at the lemma's index j of universally quantified facts that hold on the path (functions j -> Bool or list of Bool)
+    ext = []
+    for f in extra:
+        v = f(j)
+        ext += list(v) if isinstance(v, (list, tuple)) else [v]
+    if not (prem is True or opaque.entails_ax(ex, z3.Implies(z3.And(j >= 0, j < tonum(arr1.shape[0])), prem), extra=[z3.Implies(z3.And(j >= 0, j < tonum(arr1.shape[0])), e_) for e_ in ext if isz(e_)])):
         return None
     s1, s2 = reduce_(ex, 'sum', arr1, 0), reduce_(ex, 'sum', arr2, 0)
     return toreal(s1) == toreal(c) * toreal(s2)
